@@ -147,9 +147,8 @@ func (m *MoovBox) RemovePsshs() []*PsshBox {
 
 func (m *MoovBox) GetSinf(trackID uint32) *SinfBox {
 	for _, trak := range m.Traks {
-		if trak.Tkhd.TrackID == trackID {
-			stsd := trak.Mdia.Minf.Stbl.Stsd
-			sd := stsd.Children[0] // Get first (and only)
+		if trak.Tkhd != nil && trak.Tkhd.TrackID == trackID {
+			sd := firstSampleEntry(trak)
 			switch box := sd.(type) {
 			case *VisualSampleEntryBox:
 				return box.Sinf
@@ -161,12 +160,20 @@ func (m *MoovBox) GetSinf(trackID uint32) *SinfBox {
 	return nil
 }
 
+// firstSampleEntry returns the first (and normally only) child of the stsd box of trak, or nil if there is none.
+func firstSampleEntry(trak *TrakBox) Box {
+	if trak.Mdia == nil || trak.Mdia.Minf == nil || trak.Mdia.Minf.Stbl == nil ||
+		trak.Mdia.Minf.Stbl.Stsd == nil || len(trak.Mdia.Minf.Stbl.Stsd.Children) == 0 {
+		return nil
+	}
+	return trak.Mdia.Minf.Stbl.Stsd.Children[0]
+}
+
 // IsEncrypted returns true if SampleEntryBox is "encv" or "enca"
 func (m *MoovBox) IsEncrypted(trackID uint32) bool {
 	for _, trak := range m.Traks {
-		if trak.Tkhd.TrackID == trackID {
-			stsd := trak.Mdia.Minf.Stbl.Stsd
-			sd := stsd.Children[0] // Get first (and only)
+		if trak.Tkhd != nil && trak.Tkhd.TrackID == trackID {
+			sd := firstSampleEntry(trak)
 			switch box := sd.(type) {
 			case *VisualSampleEntryBox:
 				return box.Type() == "encv"
